@@ -19,6 +19,12 @@ cp /verif/known_findings.json "$H/out/" 2>/dev/null
 if grep -q '^VIOLATION property=' "$H/run.log"; then
   echo "MUTEST $P $(basename $PATCH): CAUGHT (rc=$rc) $(grep -A1 '^VIOLATION' "$H/run.log" | sed -n 2p)"
   exit 0
+elif [ $rc -ne 0 ] && [ $rc -ne 1 ] && [ $rc -ne 3 ] && [ $rc -ne 124 ] && { [ "$P" = C02 ] || [ "$P" = C19 ] || [ "$P" = C20 ]; }; then
+  echo "MUTEST $P $(basename $PATCH): CAUGHT (process died rc=$rc; a crash is a refutation for $P) $(grep -m1 -i 'panic\|fatal error\|DATA RACE' "$H/run.log")"
+  exit 0
+elif [ -n "$RACE" ] && grep -q 'WARNING: DATA RACE' "$H/run.log"; then
+  echo "MUTEST $P $(basename $PATCH): CAUGHT (race detector report)"
+  exit 0
 else
   echo "MUTEST $P $(basename $PATCH): MISSED (rc=$rc)"; tail -5 "$H/run.log"
   exit 1
